@@ -154,6 +154,22 @@ def tla_unescape(s):
 def run_tlc(module, cfg, wd, workers=8, timeout=1800, extra_env=None, deque=False, extra_args=(), xmx='6g'):
     """runs TLC on spec/<module>.tla with config file cfg; returns (stdout, generated, distinct).
     Raises ToolError on parse errors / timeouts; invariant violations are returned in stdout."""
+    # Model checking a specification module depends on the specification files and the configuration only (not on /repo):
+    # its output is reused when another check of the same session asks for exactly the same run.
+    key = None
+    if module.startswith('MC_') and not extra_env and '-simulate' not in extra_args and not os.environ.get('VERIF_NO_TLC_CACHE'):
+        import hashlib
+        h = hashlib.sha256()
+        h.update(module.encode()); h.update(open(cfg, 'rb').read()); h.update(repr(list(extra_args)).encode())
+        for f in sorted(os.listdir(SPEC)):
+            if f.endswith('.tla'):
+                h.update(f.encode()); h.update(open(os.path.join(SPEC, f), 'rb').read())
+        key = os.path.join(WORK, 'tlc_cache', h.hexdigest() + '.out')
+        if os.path.exists(key):
+            out = open(key).read()
+            gen, dist = parse_stats(out)
+            log('TLC %s: %d generated, %d distinct (same run reused from this session)' % (module, gen, dist))
+            return out, gen, dist
     meta = os.path.join(wd, 'tlc.' + os.path.basename(cfg) + '.%d' % os.getpid())
     shutil.rmtree(meta, ignore_errors=True)
     cmd = ['tlc', '-workers', str(workers), '-metadir', meta, '-cleanup', '-noGenerateSpecTE', '-config', cfg] + list(extra_args) + [module + '.tla']
@@ -172,6 +188,17 @@ def run_tlc(module, cfg, wd, workers=8, timeout=1800, extra_env=None, deque=Fals
         raise ToolError('TLC failed on %s (exit %d):\n%s' % (module, p.returncode, out[-6000:]))
     gen, dist = parse_stats(out)
     log('TLC %s: %d generated, %d distinct, %.1fs' % (module, gen, dist, time.time() - t0))
+    if key and tlc_violation(out) is None:
+        os.makedirs(os.path.dirname(key), exist_ok=True)
+        tmp = key + '.%d' % os.getpid()
+        open(tmp, 'w').write(out)
+        os.replace(tmp, key)
+        old = sorted((os.path.join(os.path.dirname(key), f) for f in os.listdir(os.path.dirname(key))), key=os.path.getmtime)
+        for f in old[:-40]:
+            try:
+                os.remove(f)
+            except OSError:
+                pass
     return out, gen, dist
 
 
